@@ -17,7 +17,8 @@ var urlVals = []string{"http://example.com/", "https://a.b/c?d=e#f", "mailto:a@b
 	"java\tscript:alert(1)", "data:text/html,x", "data:image/png;base64,iVBORw0KGgo=", "ftp://x/y", "x-app://open", "http://a b/", "\x01javascript:x", "tel:+123", "http://[::1]/",
 	"http:\\\\evil.com", "a/b:c", "%6aavascript:x", "?q=<b>", "http://é.com/é?é#é", "", " ", "http://x/%zz", "http://example.org/ok/1", "https://example.org/no", "HTTP://EXAMPLE.ORG/ok",
 	"http://x/?a=1&b=2;c=3", "http://x/?<x>=1", "http://user:pw@h:80/p", "sftp://h/", "tels:1",
-	" http://example.com/x", "http://example.com/y ", "http://example.com/z\n", "\thttps://example.org/ok/t", "data:image/png;base64,iVBO\nRw0KGgo=", " /rel/padded ", "\u00a0http://example.com/nbsp"}
+	" http://example.com/x", "http://example.com/y ", "http://example.com/z\n", "\thttps://example.org/ok/t", "data:image/png;base64,iVBO\nRw0KGgo=", " /rel/padded ", "\u00a0http://example.com/nbsp",
+	"http://example.com/?q=a\u3000#", "data:image/gif;base64,R0lGODlh #", "%2f/x", "/a%2f..%2fb", "http://example.com/a b#", "http://example.com/#\u00a0", "http://example.com/? #", "/x?y= #"}
 
 var otherVals = []string{"", "1", "42", "50%", "rtl", "en", "a b", "nofollow", "noopener noreferrer", "_blank", "_self", "anonymous", "use-credentials", "allow-scripts allow-forms",
 	"allow-scripts allow-scripts x", "Hello, world!", "a<b", "a\"b", "a'b", "a&amp;b", "x y z", "abc", "ABC", "open", "1997-07-16", "left", "color: red", "color:red;background:url(javascript:x)",
